@@ -54,7 +54,7 @@ pub struct World {
     pub cost_lists: BTreeMap<u8, Vec<i128>>,
 }
 
-pub const N_OUTPOINTS: usize = 24;
+pub const N_OUTPOINTS: usize = 28;
 pub fn op_outpoint(i: usize) -> TransactionInput {
     // adversarial order: hashes ff.., 00.., 7f.., 80.. with indices that do not sort like the list
     const T: [(u8, u32); N_OUTPOINTS] = [
@@ -62,8 +62,20 @@ pub fn op_outpoint(i: usize) -> TransactionInput {
         (0x21, 3), (0x31, 4), (0x41, 5), (0x51, 6),
         // 20, 21: the UTxOs holding reference scripts; 22, 23: explicit reference inputs
         (0x22, 3), (0x32, 4), (0x42, 5), (0x52, 6),
+        // 24..: UTxOs 20.. of the table (outpoints 20..23 are taken by the reference UTxOs)
+        (0x23, 3), (0x02, 2), (0x43, 5), (0x53, 6),
     ];
     TransactionInput::new(&txhash(T[i].0), T[i].1)
+}
+/// the outpoint of UTxO `i` of the world's table
+pub fn utxo_outpoint_index(i: usize) -> usize {
+    if i < 20 { i } else { i + 4 }
+}
+pub fn utxo_outpoint(i: usize) -> TransactionInput {
+    op_outpoint(utxo_outpoint_index(i))
+}
+pub fn utxo_outpoint_key(i: usize) -> (Vec<u8>, u64) {
+    op_outpoint_key(utxo_outpoint_index(i))
 }
 pub fn op_outpoint_key(i: usize) -> (Vec<u8>, u64) {
     let x = op_outpoint(i);
@@ -160,6 +172,9 @@ impl World {
             // 19: a key-owned UTxO at an enterprise address that CARRIES a reference script (2000 bytes of
             // Plutus V2): spending it is charged the reference-script fee like referencing it
             UtxoSpec { owner: Owner::Key(1), base: false, coin: 8_000_000, assets: vec![] },
+            // 20: a key-owned UTxO whose value was DECODED and holds an asset with quantity 0 and a policy with
+            // no assets (nothing in ledger terms: zero = absent); what the builder emits must not carry them on
+            UtxoSpec { owner: Owner::Key(2), base: false, coin: 7_000_000, assets: vec![] },
         ];
         for (i, s) in specs.into_iter().enumerate() {
             let addr = match &s.owner {
@@ -178,7 +193,18 @@ impl World {
             if i == SPENT_REF_SCRIPT_UTXO {
                 out.set_script_ref(&ScriptRef::new_plutus_script(&PlutusScript::new_v2(vec![0x5c; SPENT_REF_SCRIPT_SIZE])));
             }
-            let u = TransactionUnspentOutput::new(&op_outpoint(i), &out);
+            if i == ZERO_ASSET_UTXO {
+                // a value as a decoder hands it over: an asset with quantity 0 and a policy with no assets
+                let vb = refcbor::emit(&refcbor::Node::arr(vec![
+                    refcbor::Node::uint(s.coin),
+                    refcbor::Node::map(vec![
+                        (refcbor::Node::bytes(&w.policies[0].to_bytes()), refcbor::Node::map(vec![(refcbor::Node::bytes(b"t"), refcbor::Node::uint(0))])),
+                        (refcbor::Node::bytes(&w.policies[2].to_bytes()), refcbor::Node::map(vec![])),
+                    ]),
+                ]));
+                out = TransactionOutput::new(&addr, &Value::from_bytes(vb).expect("harness: value with a zero quantity and an empty policy"));
+            }
+            let u = TransactionUnspentOutput::new(&utxo_outpoint(i), &out);
             w.utxos.push((s, u));
         }
         // requested outputs
@@ -213,7 +239,7 @@ impl World {
         *u = TransactionUnspentOutput::new(&u.input(), &o);
     }
     pub fn lookup(&self, op: &(Vec<u8>, u64)) -> Option<usize> {
-        (0..self.utxos.len()).find(|i| &op_outpoint_key(*i) == op)
+        (0..self.utxos.len()).find(|i| &utxo_outpoint_key(*i) == op)
     }
 }
 
@@ -344,6 +370,7 @@ pub const REF_SCRIPT_OUTPOINT: usize = 20;
 pub const REF_SCRIPT_SIZE: usize = 600;
 pub const SPENT_REF_SCRIPT_UTXO: usize = 19;
 pub const SPENT_REF_SCRIPT_SIZE: usize = 2000;
+pub const ZERO_ASSET_UTXO: usize = 20;
 
 fn redeemer_for(tag: RedeemerTag, marker: u64) -> Redeemer {
     // the data names the item the redeemer is attached to (C10); index is a placeholder
@@ -1097,7 +1124,7 @@ pub fn ref_script_total(t: &PTx, st: &St) -> u64 {
             total += 40;
         } else if *op == op_outpoint_key(23) {
             total += 30_000;
-        } else if *op == op_outpoint_key(SPENT_REF_SCRIPT_UTXO) {
+        } else if *op == utxo_outpoint_key(SPENT_REF_SCRIPT_UTXO) {
             total += SPENT_REF_SCRIPT_SIZE as u64;
         } else if *op == op_outpoint_key(1) && st.m.ref_inputs.contains(&3) {
             total += 20_000;
@@ -1123,7 +1150,7 @@ pub fn ops_for(prop: &str) -> Vec<Op> {
             Op::Fee(0), Op::Fee(1), Op::Fee(2), Op::Fee(3), Op::Coll(1), Op::Meta, Op::RefIn(1), Op::RefIn(3),
             Op::WdAgain(0), Op::WdAgain(2), Op::Wd(4), Op::InAgain(0), Op::In(7, 0), Op::In(7, 1), Op::In(8, 0), Op::In(17, 0),
             Op::Ttl, Op::Treasury, Op::MintAndOutput, Op::MetaJson, Op::ExtraDatum(1), Op::ExtraDatum(0), Op::ExtraDatum(4), Op::MetaEmpty(0), Op::MetaEmpty(1),
-            Op::In(18, 0), Op::Mint(6), Op::Mint(5), Op::In(19, 0), Op::Wd(6),
+            Op::In(18, 0), Op::Mint(6), Op::Mint(5), Op::In(19, 0), Op::Wd(6), Op::In(20, 0),
         ],
         // C16 looks at ordering and repetition in the built transaction: items that bring scripts,
         // datums, reference inputs, signers - one or two per source
